@@ -1,5 +1,5 @@
 """C16 — the accumulation property through more REAL engines: engines that override `_do_iteration` (RIM with
-`model.steps = 2`, VSharpNet, the SSL base engine through Unet2dSSLEngine) and an engine with an additional model in
+`model.steps = 2`, VSharpNet, the SSL / JSSL base engines through Unet2dSSLEngine / Unet2dJSSLEngine) and an engine with an additional model in
 `self.models` (`sensitivity_model`) whose parameters share the optimiser.
 
 `engine_check(kind, …)`: REAL `engine.train` with `gradient_steps = k` against, per window, the engine's own `_do_iteration`
@@ -17,7 +17,7 @@ import torch
 
 from props import c16 as toy
 
-KINDS = ("rim2", "unet_sens", "unet_ssl", "vsharp")
+KINDS = ("rim2", "unet_sens", "unet_ssl", "unet_jssl", "vsharp")
 
 
 class XDS(torch.utils.data.Dataset):
@@ -38,7 +38,8 @@ class XDS(torch.utils.data.Dataset):
                 "masked_kspace": ksp * mask, "kspace": ksp * mask, "sensitivity_map": torch.randn(coils, h, w, 2, generator=g),
                 "sampling_mask": mask, "input_sampling_mask": inp, "target_sampling_mask": tgt,
                 "input_kspace": ksp * inp, "target_kspace": ksp * tgt, "target": torch.randn(h, w, generator=g).abs(),
-                "scaling_factor": torch.tensor(1.0), "filename": "f", "slice_no": i})
+                "scaling_factor": torch.tensor(1.0), "filename": "f", "slice_no": i,
+                "is_ssl": torch.tensor(i % 3 != 0)})      # JSSL: supervised and self-supervised samples mixed
         self.ndim = 2
         self.volume_indices = {}
 
@@ -75,6 +76,13 @@ def build(kind, seed, total, k, bs):
         from direct.nn.unet.config import Unet2dConfig
         from direct.nn.unet.unet_2d import Unet2d
         from direct.nn.unet.unet_engine import Unet2dSSLEngine as E
+        mc = Unet2dConfig(num_filters=4, num_pool_layers=2, image_initialization="sense")
+        model = Unet2d(fwd, bwd, num_filters=4, num_pool_layers=2, dropout_probability=0.0, image_initialization="sense")
+        losses = ["l1_loss", "kspace_nmse_loss"]
+    elif kind == "unet_jssl":
+        from direct.nn.unet.config import Unet2dConfig
+        from direct.nn.unet.unet_2d import Unet2d
+        from direct.nn.unet.unet_engine import Unet2dJSSLEngine as E
         mc = Unet2dConfig(num_filters=4, num_pool_layers=2, image_initialization="sense")
         model = Unet2d(fwd, bwd, num_filters=4, num_pool_layers=2, dropout_probability=0.0, image_initialization="sense")
         losses = ["l1_loss", "kspace_nmse_loss"]
